@@ -399,6 +399,6 @@ func emitCase(cw *hx.CaseWriter, res *hx.Result, in input, obs []*stepObs, conv 
 		js = append(js, map[string]interface{}{"lines": o.Lines, "served": o.Served, "dyn": o.DynJS, "cmds": o.Cmds, "reloads": o.Reloads})
 	}
 	cw.Add(func(id int) string {
-		return fmt.Sprintf("{| kid := %s; ksteps := %s; kdyns := %s; kinsts := %s |}", hx.N(id), hx.List(steps), hx.List(dyns), hx.List(insts))
+		return fmt.Sprintf("{| kid := %s; kx := %s; ksteps := %s; kdyns := %s; kinsts := %s |}", hx.N(id), hx.Tuple(hx.Bool(in.crtAllowed()), hx.Bool(in.caAllowed())), hx.List(steps), hx.List(dyns), hx.List(insts))
 	}, map[string]interface{}{"input": in, "describe": describe(in.History), "observed": js})
 }
